@@ -133,7 +133,6 @@ void harness(void)
   if (g_waits > 0) VX_REACH("blocked");
 #endif
 #ifdef U_SET
-  long w0 = g_waiters;
   set(&s);
   VX_REACH("returned");
   if (g_woken > 0) VX_REACH("woke_waiters");
